@@ -322,8 +322,10 @@ def run(ctx):
             m = cls.methods.get(mname)
             if m is None:
                 continue
-            adds = [c for c in q.calls(m) if isinstance(c.func, ast.Attribute) and c.func.attr == "add_style" and is_self_attr(c.func.value)]
-            convs = [c for c in q.calls(m) if isinstance(c.func, ast.Attribute) and c.func.attr == "convert"]
+            # the registration may sit in a private helper of the formatter
+            scope_fns = [m] + [t for cs in cg.sites_in(m) for t in cs.targets if t.cls is cls and t.name.startswith("_") and t is not m]
+            adds = [c for f_ in scope_fns for c in q.calls(f_) if isinstance(c.func, ast.Attribute) and c.func.attr == "add_style" and is_self_attr(c.func.value)]
+            convs = [c for f_ in scope_fns for c in q.calls(f_) if isinstance(c.func, ast.Attribute) and c.func.attr == "convert"]
             if not adds:
                 r.fail(m, m.node, "%s.%s registers nothing" % (cls.name, mname), "%s.%s does not register the style with the formatter library" % (cls.name, mname))
                 continue
@@ -358,7 +360,12 @@ def run(ctx):
     for cls in (ansi, plain):
         m = cls.methods["__init__"]
         loops = [n for n in walk_no_nested(m.node) if isinstance(n, ast.For) and "styles" in norm(n.iter)]
-        if loops and any(isinstance(c.func, ast.Attribute) and c.func.attr == "add_style" for lp in loops for c in q.calls(lp)):
+
+        def registers(call):
+            if isinstance(call.func, ast.Attribute) and call.func.attr == "add_style":
+                return True
+            return any(t.cls is cls and any(isinstance(c2.func, ast.Attribute) and c2.func.attr == "add_style" for c2 in q.calls(t)) for t in cg.site_for(m, call).targets)
+        if loops and any(registers(c) for lp in loops for c in q.calls(lp)):
             r.ok("%s.__init__ registers every style of the style set" % cls.name)
         else:
             r.fail(m, m.node, "%s.__init__ style loop" % cls.name, "%s does not register the styles of its style set: their tags are %s" %
